@@ -11,7 +11,40 @@ from .c01 import judge
 BUDGET = {"quick": 45, "thorough": 1500}
 
 
+PROBES = ["NeverDepth3", "NeverStaticWriteAttempt", "NeverRollbackOfWrite", "NeverCallFailed", "NeverDelegateFrame", "NeverCallcodeFrame",
+          "NeverCreated", "NeverValueMoved", "NeverLog", "NeverReentered", "NeverLooped"]
+
+
+def design_model_check(chk: Check, tier: str):
+    """EvmSmall.tla: the reference machine at WB = 1 on every program of a gadget family, all frame invariants."""
+    from concurrent.futures import ThreadPoolExecutor
+
+    from harness.common import MachineryError, cleanup, run_tlc, workdir
+
+    work = workdir("c09-small")
+    try:
+        for cfg in ["q"] if tier == "quick" else ["q", "t", "r"]:
+            tr = run_tlc("EvmSmall", f"MC_EvmSmall_{cfg}.cfg", work=work, workers=16, timeout=4 * 3600)
+            chk.add_tlc(tr)
+            if tr.rc != 0 or tr.violated:
+                # the specification contradicts its own invariants: nothing it says about halmos can be trusted
+                raise MachineryError(f"EvmSmall ({cfg}): {tr.violated or tr.rc}\n{tr.stdout[-1500:]}")
+            chk.cov[f"evmsmall_{cfg}_states"] = tr.distinct_states
+
+        def probe(name):
+            return name, run_tlc("EvmSmall", f"MC_EvmSmall_p_{name}.cfg", work=work, workers=4, timeout=1800, expect_violation=True)
+
+        with ThreadPoolExecutor(4) as pool:
+            for name, tr in pool.map(probe, PROBES):
+                if tr.violated != name:
+                    raise MachineryError(f"EvmSmall: the situation behind {name} is not reachable in the model (vacuous invariants): {tr.violated} rc={tr.rc}")
+                chk.count("negative_controls_rejected")
+    finally:
+        cleanup(work)
+
+
 def run(chk: Check, tier: str):
+    design_model_check(chk, tier)
     rnd = random.Random(7919 * chk.seed + 9)
     n = BUDGET[tier]
     items = []
@@ -43,6 +76,8 @@ def run(chk: Check, tier: str):
         "revert/invalid/out-of-bounds/static write, symbolic values and balances); the root's output contains every "
         "frame's observed context, the copied return data and success flags, and the final storage/balances, and is "
         "compared with Evm.tla, whose frame invariants (ContextCorrect, StaticNoWrite, BalanceConserved, "
-        "FailureRestores) TLC checks in every state of every behaviour"
+        "FailureRestores) TLC checks in every state of every behaviour; the same machine text is model-checked exhaustively "
+        "at WB = 1 (EvmSmall.tla: every program of a 26-gadget family over three accounts, all call kinds, value, static flag, "
+        "depth limit) with 11 invariants, 4 step properties and 11 reachability probes that must be violated"
     )
     chk.assumptions += ["created-account addresses compared up to renaming (A3)", "no gas"]
